@@ -146,3 +146,93 @@ func copyCheck(id string, model nextroute.Model, orig nextroute.Solution) {
 	}
 	fmt.Fprintf(out, "%s copychecked\n", id)
 }
+
+// copyRandomCheck: a copy has random sources of its own (C11: "independent of
+// its original").  math/rand state cannot be cloned, so independence is shown
+// on twins: two models built from the same input give solutions with the same
+// random streams; on one twin the copy's sources (its own, those of its unit
+// collections) are drawn from, on the other they are left alone - what the
+// ORIGINALS draw afterwards must be the same on both twins; then the other
+// direction with a second pair of copies.  A control round without any
+// interference comes first: if the twins differ there, nothing is judged.
+func copyRandomCheck(id string, build func() (nextroute.Solution, error)) {
+	ctx := context.Background()
+	drawAll := func(s nextroute.Solution, n int) []int64 {
+		var r []int64
+		for i := 0; i < n; i++ {
+			r = append(r, s.Random().Int63())
+			for _, c := range []nextroute.ImmutableSolutionPlanUnitCollection{s.UnPlannedPlanUnits(), s.PlannedPlanUnits()} {
+				if c.Size() > 0 {
+					r = append(r, int64(c.RandomElement().ModelPlanUnit().Index()))
+					for _, u := range c.RandomDraw(2) {
+						r = append(r, int64(u.ModelPlanUnit().Index()))
+					}
+				}
+			}
+		}
+		return r
+	}
+	same := func(a, b []int64) bool {
+		if len(a) != len(b) {
+			return false
+		}
+		for i := range a {
+			if a[i] != b[i] {
+				return false
+			}
+		}
+		return true
+	}
+	twin := func() (nextroute.Solution, bool) {
+		s, err := build()
+		if err != nil {
+			return nil, false
+		}
+		// something in the planned collection: the first units that can be planned
+		n := 0
+		for _, u := range s.UnPlannedPlanUnits().SolutionPlanUnits() {
+			if n >= 3 {
+				break
+			}
+			if mv := s.BestMove(ctx, u); mv.IsExecutable() {
+				if ok, err := mv.Execute(ctx); err == nil && ok {
+					n++
+				}
+			}
+		}
+		return s, true
+	}
+	for round, interfere := range []bool{false, true} {
+		a, ok1 := twin()
+		b, ok2 := twin()
+		if !ok1 || !ok2 {
+			return
+		}
+		ca, cb := a.Copy(), b.Copy()
+		if interfere {
+			drawAll(ca, 5)
+		}
+		da, db := drawAll(a, 4), drawAll(b, 4)
+		// second direction: the originals are used (a more than b), fresh copies must draw the same
+		ca2, cb2 := a.Copy(), b.Copy()
+		if interfere {
+			drawAll(a, 5)
+		}
+		dc, dd := drawAll(ca2, 4), drawAll(cb2, 4)
+		_ = cb
+		if round == 0 {
+			if !same(da, db) || !same(dc, dd) {
+				fmt.Fprintf(out, "%s copynote twins differ without interference\n", id)
+				return
+			}
+			continue
+		}
+		if !same(da, db) {
+			fmt.Fprintf(out, "%s copydiff random sources: drawing from a copy (its Random(), RandomElement/RandomDraw of its unit collections) changes what the original draws afterwards: %v vs %v\n", id, da, db)
+		}
+		if !same(dc, dd) {
+			fmt.Fprintf(out, "%s copydiff random sources: drawing from the original changes what a copy made before draws afterwards: %v vs %v\n", id, dc, dd)
+		}
+	}
+	fmt.Fprintf(out, "%s copyrandomchecked\n", id)
+}
